@@ -113,7 +113,7 @@ class Env:
 
 DRIVER_TRIPLES = [(5, 0x24, 0), (5, 0x24, 0), (5, 0x20, 0), (5, 0x25, 0), (5, 0x21, 0), (5, 0x26, 0), (5, 0x1A, 0), (5, 0x2C, 0), (5, 0x55, 4), (6, 0x29, 0), (6, 0x29, 1), (6, 0x29, 2),
                   (6, 0x29, 3), (6, 0x29, 4), (6, 0x28, 0), (6, 0x2A, 1), (6, 0x2A, 9), (6, 0x3F, 3), (6, 0x3F, 0xE), (6, 0x3F, 1), (6, 0x2F, 0), (2, 4, 0), (2, 4, 1), (2, 4, 2),
-                  (2, 4, 3), (2, 4, 7), (2, 0x3A, 0), (2, 0x3A, 1), (1, 0x17, 0), (1, 0x18, 0), (1, 0x0B, 1), (1, 0x5D, 0), (0, 0, 0), (0, 0, 0x1D), (1, 0, 0x1D), (3, 0x11, 0),
+                  (2, 4, 3), (2, 4, 7), (2, 0x3A, 0), (2, 0x3A, 1), (1, 0x17, 0), (1, 0x17, 1), (1, 0x17, 6), (1, 0x18, 0), (1, 0x18, 2), (1, 0x0B, 1), (1, 0x5D, 0), (0, 0, 0), (0, 0, 0x1D), (1, 0, 0x1D), (3, 0x11, 0),
                   (3, 0x14, 1), (4, 0x44, 0), (0xB, 0x47, 3), (0xB, 0, 0), (0xB, 0x4F, 0), (7, 0x27, 0), (8, 0, 0), (0xD, 0, 0), (0xE, 0x1D, 0), (0xF, 0, 0), (0xA, 0, 0), (9, 0x80, 0)]
 
 
@@ -564,8 +564,14 @@ def run_condition_sweep(shard, ctx, env, rng):
                     for name, (kind_, width, d) in c.args.items():
                         if kind_ == "u" and d is not None and not isinstance(d, type) and width and width <= 8 and name in a and (mi + ti + fi) % 2:
                             a[name] = 1 if width == 1 else (a[name] or 1)
+                # INFORMATION as units fill it: the block the condition is about, inside the range the caller asked for (when the
+                # command has one); else a running number
+                info = n
+                if not c.custom and isinstance(a, dict) and isinstance(a.get("lba"), int) and (ti + fi) % 3:
+                    span = a.get("tl") or a.get("nb") or a.get("numblks") or 1
+                    info = (a["lba"] + ((ti + fi) % max(1, span if isinstance(span, int) else 1))) & 0xFFFFFFFF
                 if form == "fixed":
-                    sb = bytearray(ref.build(0x70 if (ti + fi) % 5 else 0x71, 1, key, asc, ascq, 18, info=n))
+                    sb = bytearray(ref.build(0x70 if (ti + fi) % 5 else 0x71, 1, key, asc, ascq, 18, info=info))
                     if sks:
                         sb[15], sb[16], sb[17] = sks
                 elif form == "descriptor":
